@@ -1,7 +1,7 @@
 CONSTANTS
   Dev = {}
   Chunk = 3
-  MaxSend = 4
+  MaxSend = 5
   Pats <- PatsQ
   HostPats <- HostPatsQ
   Kinds <- KindsQ
